@@ -1,5 +1,5 @@
 \* quick: 2 rows + 1 row, all flags free, zero-length rows, adjacent functions (padding: _T),
-\* stable arrangement of equal addresses (what sort_unstable does for <= 20 elements), std binary search
+\* one compilation unit
 CONSTANTS
   MaxRows1 = 2
   MaxRows2 = 1
@@ -9,8 +9,8 @@ CONSTANTS
   Stmts = {TRUE, FALSE}
   Pes = {TRUE, FALSE}
   Gaps = {0}
-  Stable = TRUE
-  AnyHit = FALSE
+  TwoUnits = FALSE
+  PerUnitFallback = FALSE
   Allowed = {}
 SPECIFICATION Spec
 ALIAS Alias
